@@ -183,30 +183,31 @@ func (engine *Engine) TakeSnapshot() error {
 
 	// Open manifest file
 	var mf *os.File
+	var md []byte
 	mf, err := os.Open(path.Join(dirname, "manifest.bin"))
 	if err != nil {
 		if errors.Is(err, fs.ErrNotExist) {
-			// Create file if it does not exist
-			mf, err = os.Create(path.Join(dirname, "manifest.bin"))
-			if err != nil {
-				log.Println(err)
-				return err
-			}
+			// No manifest yet: this is the first snapshot. The manifest is only created once the
+			// snapshot is completely on disk (see below).
 			firstSnapshot = true
 		} else {
 			log.Println(err)
 			return err
 		}
-	}
-
-	md, err := io.ReadAll(mf)
-	if err != nil {
-		log.Println(err)
-		return err
-	}
-	if err := mf.Close(); err != nil {
-		log.Println(err)
-		return err
+	} else {
+		md, err = io.ReadAll(mf)
+		if err != nil {
+			log.Println(err)
+			return err
+		}
+		if err := mf.Close(); err != nil {
+			log.Println(err)
+			return err
+		}
+		if len(md) == 0 {
+			// An empty manifest (left by an interrupted first snapshot of an older version) carries no information.
+			firstSnapshot = true
+		}
 	}
 
 	manifest := new(Manifest)
@@ -243,62 +244,22 @@ func (engine *Engine) TakeSnapshot() error {
 		return err
 	}
 
-	if err := verifhook.Fault("snap.manifest.create"); err != nil {
-		return err
-	}
-	// os.Create will replace the old manifest file
-	mf, err = os.Create(path.Join(dirname, "manifest.bin"))
-	if err != nil {
-		log.Println(err)
-		return err
-	}
-
-	// Write the latest manifest data
-	manifest = &Manifest{
-		LatestSnapshotHash:         md5.Sum(out),
-		LatestSnapshotMilliseconds: msec,
-	}
-	verifhook.FSEvent("create", path.Join(dirname, "manifest.bin"), nil)
-	mo, err := json.Marshal(manifest)
-	if err != nil {
-		log.Println(err)
-		return err
-	}
-	if err := verifhook.Fault("snap.manifest.write"); err != nil {
-		return err
-	}
-	if _, err = mf.Write(mo); err != nil {
-		log.Println(err)
-		return err
-	}
-	verifhook.FSEvent("write", path.Join(dirname, "manifest.bin"), mo)
-	if err := verifhook.Fault("snap.manifest.sync"); err != nil {
-		return err
-	}
-	if err = mf.Sync(); err != nil {
-		log.Println(err)
-	}
-	verifhook.FSEvent("sync", path.Join(dirname, "manifest.bin"), nil)
-	if err = mf.Close(); err != nil {
-		log.Println(err)
-		return err
-	}
-
+	// Write the state file first: the manifest must never point at a snapshot that is not completely on disk.
 	if err := verifhook.Fault("snap.dir.mkdir"); err != nil {
 		return err
 	}
 	// Create snapshot directory
-	dirname = path.Join(engine.directory, "snapshots", fmt.Sprintf("%d", msec))
-	if err := os.MkdirAll(dirname, os.ModePerm); err != nil {
+	snapshotDir := path.Join(engine.directory, "snapshots", fmt.Sprintf("%d", msec))
+	if err := os.MkdirAll(snapshotDir, os.ModePerm); err != nil {
 		return err
 	}
 
-	verifhook.FSEvent("mkdir", dirname, nil)
+	verifhook.FSEvent("mkdir", snapshotDir, nil)
 	if err := verifhook.Fault("snap.state.create"); err != nil {
 		return err
 	}
-	// Create snapshot file
-	f, err := os.OpenFile(path.Join(dirname, "state.bin"), os.O_WRONLY|os.O_CREATE, os.ModePerm)
+	// Create snapshot file (truncating a file left behind by an earlier attempt in the same millisecond)
+	f, err := os.OpenFile(path.Join(snapshotDir, "state.bin"), os.O_WRONLY|os.O_CREATE|os.O_TRUNC, os.ModePerm)
 	if err != nil {
 		log.Println(err)
 		return err
@@ -309,7 +270,7 @@ func (engine *Engine) TakeSnapshot() error {
 		}
 	}()
 
-	verifhook.FSEvent("create", path.Join(dirname, "state.bin"), nil)
+	verifhook.FSEvent("create", path.Join(snapshotDir, "state.bin"), nil)
 	if err := verifhook.Fault("snap.state.write"); err != nil {
 		return err
 	}
@@ -317,15 +278,77 @@ func (engine *Engine) TakeSnapshot() error {
 	if _, err = f.Write(out); err != nil {
 		return err
 	}
-	verifhook.FSEvent("write", path.Join(dirname, "state.bin"), out)
+	verifhook.FSEvent("write", path.Join(snapshotDir, "state.bin"), out)
 	if err := verifhook.Fault("snap.state.sync"); err != nil {
 		return err
 	}
 	if err = f.Sync(); err != nil {
 		log.Println(err)
+		return err
+	}
+	verifhook.FSEvent("sync", path.Join(snapshotDir, "state.bin"), nil)
+
+	// Only now publish the snapshot: write the new manifest to a temporary file and rename it over
+	// the old one, so that a crash leaves either the previous manifest or the new one, never a partial one.
+	manifest = &Manifest{
+		LatestSnapshotHash:         md5.Sum(out),
+		LatestSnapshotMilliseconds: msec,
+	}
+	mo, err := json.Marshal(manifest)
+	if err != nil {
+		log.Println(err)
+		return err
+	}
+	if err := verifhook.Fault("snap.manifest.create"); err != nil {
+		return err
+	}
+	mf, err = os.Create(path.Join(dirname, "manifest.bin.tmp"))
+	if err != nil {
+		log.Println(err)
+		return err
+	}
+	verifhook.FSEvent("create", path.Join(dirname, "manifest.bin.tmp"), nil)
+	if err := verifhook.Fault("snap.manifest.write"); err != nil {
+		_ = mf.Close()
+		return err
+	}
+	if _, err = mf.Write(mo); err != nil {
+		log.Println(err)
+		_ = mf.Close()
+		return err
+	}
+	verifhook.FSEvent("write", path.Join(dirname, "manifest.bin.tmp"), mo)
+	if err := verifhook.Fault("snap.manifest.sync"); err != nil {
+		_ = mf.Close()
+		return err
+	}
+	if err = mf.Sync(); err != nil {
+		log.Println(err)
+		_ = mf.Close()
+		return err
+	}
+	verifhook.FSEvent("sync", path.Join(dirname, "manifest.bin.tmp"), nil)
+	if err = mf.Close(); err != nil {
+		log.Println(err)
+		return err
+	}
+	if err := verifhook.Fault("snap.manifest.rename"); err != nil {
+		return err
+	}
+	if err = os.Rename(path.Join(dirname, "manifest.bin.tmp"), path.Join(dirname, "manifest.bin")); err != nil {
+		log.Println(err)
+		return err
+	}
+	verifhook.FSEvent("rename", path.Join(dirname, "manifest.bin"), []byte(path.Join(dirname, "manifest.bin.tmp")))
+	// Make the rename itself durable.
+	if d, err := os.Open(dirname); err == nil {
+		if err = d.Sync(); err != nil {
+			log.Println(err)
+		}
+		_ = d.Close()
+		verifhook.FSEvent("syncdir", dirname, nil)
 	}
 
-	verifhook.FSEvent("sync", path.Join(dirname, "state.bin"), nil)
 	if err := verifhook.Fault("snap.done"); err != nil {
 		return err
 	}
